@@ -19,7 +19,7 @@ func init() {
 			"R3": "no lost update between additive top-ups and an absolute settlement write",
 			"R4": "start stack = PlayerStates[k].Bankroll for k = elem(GamePlayerIndexes), no arithmetic",
 			"R5": "one top-up store per call, not in a loop",
-			"R6": "departures only drop: the leave computation stores to no TablePlayerState field",
+			"R6": "departures only drop: the leave computation stores to no TablePlayerState field; no append onto a truncated re-slice of a list the function did not allocate (in-place filtering of the live player list)",
 		},
 		Assumptions: []string{"pokerface results are zero-sum and Final = stack at start + Changed"},
 		Run:         checkC01,
